@@ -58,7 +58,11 @@ func runScale(c *Case) *Obs {
 			case "pipe":
 				scalePipe(c, res, fail)
 			default:
-				fail("unknown scale kind %s", kind)
+				if f, ok := extraScale[kind]; ok {
+					f(c, res, fail)
+				} else {
+					fail("unknown scale kind %s", kind)
+				}
 			}
 		})
 		if p {
